@@ -261,11 +261,14 @@ def maybe_unbound_path(cfg, use, var, zero_iter_feasible, const_params=None):
                     if (bool(const_params[t.id]) != neg) != lab:
                         continue
             if n.kind == 'test' and lab in (True, False) and isinstance(n.ast, ast.If):
-                k = _test_key(n.ast.test)
+                t_, lab_ = n.ast.test, lab
+                while isinstance(t_, ast.UnaryOp) and isinstance(t_.op, ast.Not):      # `if not c` decides c as well
+                    t_, lab_ = t_.operand, not lab_
+                k = _test_key(t_)
                 prev = [b for (kk, b) in decided if kk == k]
-                if prev and prev[0] != lab:
+                if prev and prev[0] != lab_:
                     continue
-                nd = decided | {(k, lab)}
+                nd = decided | {(k, lab_)}
             # a rebinding of a name used in a remembered test invalidates it
             if s.defs:
                 drop = set()
